@@ -2,13 +2,15 @@
 from props.start import *      # noqa
 from props.end import *        # noqa
 from props.C15 import channel_source_harness, ChanRx      # noqa
+from props.binary import binstart_flush_harness, binstart_flush_tasks      # noqa
 
 META = {
     'explanation': 'Batching. End + Batcher for every batch mode (clock arbitrary): everything routed before a '
                    'FlushAndRestart / FlushBatch / Terminate has left the batcher when End::next returns it, '
                    'FlushAndRestart is always the last element of its batch, an element enqueued in adaptive mode after '
                    'max_delay has elapsed is flushed at once, and the delivered sequence per link is the same for every '
-                   'batch mode. Start: a receive timeout yields exactly one FlushBatch and the next wait is blocking. '
+                   'batch mode. Start (single and two-input): a receive timeout yields exactly one FlushBatch and the next wait is '
+                   'blocking; the block never waits without a timeout while elements it handed downstream are unflushed. '
                    'ChannelSource emits FlushBatch before it blocks on an empty channel. The wall-clock bound ("within a '
                    'small multiple of max_delay" across threads) is outside the technique.',
     'assumptions': ['the clock is non-decreasing'],
@@ -20,6 +22,7 @@ def TASKS(tier):
     from lib.runner import Task
     ts = end_tasks(tier, 'batching', ('batching',))
     ts += [t for t in start_tasks(tier, 'start_timeout', progress=False) if t.params.get('adaptive')]
+    ts += binstart_flush_tasks(tier, 'binstart_timeout')
     for n in ([1, 2] if tier == 'quick' else [1, 2, 3]):
         ts.append(Task('channel_source_%d' % n, 'channel_source_harness', {'n': n},
                        bounds='ChannelSource::next until Terminate, %d items, slow producer (0/1/8/9/10 empty polls '
@@ -30,4 +33,6 @@ def TASKS(tier):
 def classify(t, v):
     if t.factory == 'start_harness':
         return classify_start(t, v)
+    if t.factory == 'binstart_flush_harness' and '(flushbatch_before_terminate)' in v['msg']:
+        return classify_start(t, v)      # same call site: the timeout arm of Start::next, whatever the receiver
     return t.role
